@@ -197,3 +197,31 @@ CONTRACTS += [
              note=f'layout {text}: the whole query is one match (environment value); hexadecimal digits symbolic')
     for where, text in (('start', '"::" + hex_char(h0) + hex_char(h1)'), ('end', 'hex_char(h0) + hex_char(h1) + "::"'))
 ]
+
+
+def _ip_parse_value_contracts():
+    """BaseIpParser.parse as a whole: the resolved value is the canonical form of the extracted text (not only for the
+    helper drop_leading_zeros: a short-cut in parse that skips the helper is caught here)"""
+    out = []
+    for lens in ((1, 1, 1, 1), (2, 1, 1, 1), (3, 1, 1, 1), (1, 3, 1, 1), (1, 1, 1, 3), (3, 3, 3, 3), (2, 2, 2, 2)):
+        name = ''.join(map(str, lens))
+        params = {}
+        octs = []
+        for o, ln in enumerate(lens):
+            vs = []
+            for d in range(ln):
+                params[f'd{o}{d}'] = Int(0, 9)
+                vs.append(f'd{o}{d}')
+            octs.append('[' + ', '.join(vs) + ']')
+        octets = '[' + ', '.join(octs) + ']'
+        params['self'] = Rec(SP_ + 'BaseIpParser', {})
+        params['ext_result'] = Rec(RT + 'extractor.py::ExtractResult',
+                                   dict(start=Int(0), length=Int(1), text=Expr(f'ipv4_text({octets})'), type=Str(), data=Const(None), meta_data=Const(None)))
+        out.append(Contract(f'c13.ip_parser.parse.value.ipv4.{name}', SP_ + 'BaseIpParser.parse', ['C13'], unroll=20,
+                            params=params,
+                            ensures=[('the-value-is-the-address-without-leading-zeros', f'result.resolution_str == ipv4_canon({octets})'),
+                                     ('text-and-span-copied', 'result.text == ext_result.text and result.start == ext_result.start')]))
+    return out
+
+
+CONTRACTS += _ip_parse_value_contracts()
